@@ -906,6 +906,69 @@ impl<'a> Gen<'a> {
     }
 }
 
+/// a short string literal of either quote kind whose body mixes: the other quote (bare or escaped), the own quote
+/// (escaped), backslash runs of length 1-4 directly before quotes of either kind, `--` after an escaped quote, and the
+/// escapes \z, \x, decimal, \u
+pub fn gen_tricky_string(rng: &mut Rng) -> String {
+    let own = if rng.chance(1, 2) { '\'' } else { '"' };
+    let other = if own == '"' { '\'' } else { '"' };
+    let mut body = String::new();
+    let k = 1 + rng.below(5);
+    for _ in 0..k {
+        match rng.below(12) {
+            0 => body.push_str(*rng.pick(&["a", "b c", "x", " ", "path", "C:"])),
+            1 => body.push(other),
+            2 | 3 | 4 => {
+                // backslash run before the other quote: any length 1-4
+                let r = 1 + rng.below(4);
+                body.push_str(&"\\".repeat(r));
+                body.push(other);
+            }
+            5 | 6 => {
+                // before the own quote the run must be odd
+                let r = *rng.pick(&[1usize, 3]);
+                body.push_str(&"\\".repeat(r));
+                body.push(own);
+            }
+            7 => {
+                body.push_str(&"\\".repeat(1 + rng.below(4)));
+                body.push(other);
+                body.push_str(" --");
+            }
+            8 => body.push_str(*rng.pick(&["\\z  ", "\\x41", "\\65", "\\065", "\\u{48}", "\\n", "\\t"])),
+            9 => body.push_str(&"\\\\".repeat(1 + rng.below(2))),
+            10 => body.push_str("--"),
+            _ => {
+                body.push_str("\\");
+                body.push(own);
+                body.push_str("--\\");
+                body.push(other);
+            }
+        }
+    }
+    format!("{own}{body}{own}")
+}
+
+/// a small program around tricky string literals (an additional input stream with its own PRNG)
+pub fn gen_string_program(rng: &mut Rng) -> String {
+    let mut s = String::new();
+    let n = 1 + rng.below(4);
+    for i in 0..n {
+        let a = gen_tricky_string(rng);
+        let b = gen_tricky_string(rng);
+        match rng.below(7) {
+            0 => s += &format!("local s{i} = {a}\n"),
+            1 => s += &format!("f({a}, {b})\n"),
+            2 => s += &format!("t{i} = {{ {a}, k = {b} }}\n"),
+            3 => s += &format!("x = {a} .. {b}\n"),
+            4 => s += &format!("print {a}\n"),
+            5 => s += &format!("local u = t[{a}] -- {}\n", "note"),
+            _ => s += &format!("if s == {a} then return {b} end\n"),
+        }
+    }
+    s
+}
+
 pub fn gen_program(rng: &mut Rng, maxstat: usize) -> String {
     let messy = rng.below(4);
     let n = 1 + rng.below(maxstat.max(1));
